@@ -370,10 +370,20 @@ func (c *Ctl) releaseAll() {
 
 type Scenario struct {
 	Name string
+	// Group, when set, is the key under which executions and outcomes of this scenario are counted (families of
+	// generated scenarios: one line per family in the evidence, not one per member)
+	Group string
 	// Run executes the scenario inside the bubble: build the objects, start goroutines, call ctl.Loop,
 	// evaluate the oracle and tear down. It returns the outcome string (for distinct-outcome counting)
 	// and violations found in this execution.
 	Run func(t *testing.T, ctl *Ctl) Outcome
+}
+
+func (sc *Scenario) statKey() string {
+	if sc.Group != "" {
+		return sc.Group
+	}
+	return sc.Name
 }
 
 type Violation struct{ Sig, Detail string }
@@ -550,7 +560,7 @@ func (e *Explorer) runStable(sc *Scenario, prefix []int, expect [][]string) (exe
 func (e *Explorer) judge(sc *Scenario, r execResult, diverged bool) {
 	x := r.ctl
 	e.Stats.Executions++
-	e.Stats.PerScenario[sc.Name]++
+	e.Stats.PerScenario[sc.statKey()]++
 	if x.HitStepCap {
 		e.Stats.StepCapped++
 		e.Stats.Exhaustive = false
@@ -565,7 +575,7 @@ func (e *Explorer) judge(sc *Scenario, r execResult, diverged bool) {
 	if !diverged {
 		e.Stats.ByCost[total]++
 	}
-	e.Stats.Outcomes[sc.Name+": "+r.out.Summary]++
+	e.Stats.Outcomes[sc.statKey()+": "+r.out.Summary]++
 	if os.Getenv("VERIF_TRACEALL") != "" {
 		var tr []string
 		for _, d := range x.Trace {
